@@ -825,6 +825,14 @@ class C02(WorkerProp):
                 for sched in ["0101010101", "0011001100", "0100000000", "0010000000"] if tier == "thorough" else [rng.choice(["0101010101", "0010000000"]), "0100000000"]:
                     second = rng.choice(["u:up2:%d:1:gen:%d:3" % (b2, 3 * b2 + 5), "d:c:%d:1" % b2])
                     L.append("multi %s %s srv/c=gen:16:3 %s u:up1:%d:1:gen:%d:7 %s" % (root, flags, sched, b1, 2 * b1 + 100, second))
+        # through the server: block sizes just above and below what a fixed-size receive buffer would hold (Ethernet payload, pages, powers of
+        # two +- the 4-byte header), in single-port mode - where the listener receives the DATA - and after a larger transfer
+        root = (self.sandbox + "/k2").encode().hex()
+        for flags in ["s", "-"]:
+            for bsz in [1468, 1469, 1470, 1471, 1472, 1473, 2044, 2048, 4092, 4096]:
+                L.append("multi %s %s srv/c=gen:16:3 %s u:up1:%d:%d:gen:%d:7 d:c:8:1" % (root, flags, rng.choice(["0", "01"]), bsz, rng.choice([1, 2]), 2 * bsz + 11))
+            for (b1, b2) in [(4096, 4098), (4096, 4100), (1024, 1027), (8192, 8195)]:
+                L.append("multi %s %s srv/c=gen:16:3 %s u:up1:%d:1:gen:%d:3+u:up2:%d:1:gen:%d:5 d:c:8:1" % (root, flags, "0" * 12 + "1", b1, b1 + 5, b2, 2 * b2 + 1))
         # through the server: datagrams from the uploading endpoint itself that are no TFTP packets but look like the next DATA block apart
         # from the high byte of the opcode never reach the file (the worker's own socket in multi-port mode, the listener in single-port mode)
         root = (self.sandbox + "/k1").encode().hex()
